@@ -289,6 +289,19 @@ def variant_for(fam, bits):
     return "0"
 
 
+STRICTER = {"0": ["0", "A", "K", "AK"], "A": ["A", "AK"], "K": ["K", "AK"], "AK": ["AK"]}
+
+
+def pick_variant(r, fam, bits):
+    """The class variant the option set requires -- or, sometimes, a stricter one (a class
+    that overrides get_cache_key to a smaller key although nothing is dropped is a valid use
+    as long as its instances are never given the extras the key leaves out)."""
+    need = variant_for(fam, bits)
+    if fam in ("subst", "count", "flop") or bits is None:
+        return need
+    return need if r.random() < 0.7 else r.choice(STRICTER[need])
+
+
 def valid_bits(fam, bits):
     da, dk, ir, ic, ik = (c == "1" for c in bits)
     if fam == "plainopt":
@@ -429,6 +442,9 @@ def generate(seed, tier):
                                        r.randint(1050, 1500), ["r", r.choice(pool_names)]]])
     # instances (rewriting a class costs ~0.13 s, so only some runs use the optimizer)
     use_opt = mode == "strict" and r.random() < 0.4
+    # several classes of one run are often rewritten with the same option set (as a code
+    # base with one house style would)
+    house_bits = "".join(r.choice("01") for _ in range(5))
     ninst = r.randint(2, 6)
     insts = []
     for n in range(ninst):
@@ -438,7 +454,8 @@ def generate(seed, tier):
             fam = "ident"
         if fam in REWRITABLE and use_opt and (r.random() < 0.6 or fam == "plainopt"):
             for _ in range(20):
-                bits = "".join(r.choice("01") for _ in range(5))
+                bits = house_bits if r.random() < 0.5 else "".join(
+                    r.choice("01") for _ in range(5))
                 if valid_bits(fam, bits) and (bits != "00000" or fam != "plainopt"):
                     break
             else:
@@ -476,19 +493,20 @@ def generate(seed, tier):
                 m.append([v, r.choice([["n", "Variable", [["s", r.choice(["x", "y", "q"])]]],
                                        ["r", r.choice(pool_names)], ["i", 3]])])
             cfg["map"] = m
-        insts.append({"inst": n, "family": fam, "opt": bits, "cfg": cfg})
+        insts.append({"inst": n, "family": fam, "opt": bits, "cfg": cfg,
+                      "variant": pick_variant(r, fam, bits)})
 
     # definitions of rewritten classes, in a seeded order, some up front, some between calls
     defines = []
     for ins in insts:
         if ins["opt"] is not None:
-            defines.append(["define", ins["family"], ins["opt"]])
+            defines.append(["define", ins["family"], ins["opt"], ins["variant"]])
     # extra definitions that are never instantiated (they still mutate optimizer state)
     for _ in range(r.randint(0, 2)):
         fam = r.choice(sorted(REWRITABLE - {"plainopt"}))
-        bits = "".join(r.choice("01") for _ in range(5))
+        bits = house_bits if r.random() < 0.5 else "".join(r.choice("01") for _ in range(5))
         if use_opt:
-            defines.append(["define", fam, bits])
+            defines.append(["define", fam, bits, pick_variant(r, fam, bits)])
     r.shuffle(defines)
     n_up_front = r.randint(0, len(defines))
     ops += defines[:n_up_front]
@@ -501,7 +519,7 @@ def generate(seed, tier):
             ops.append(later.pop(0))
         ins = r.choice(insts)
         fam = ins["family"]
-        variant = variant_for(fam, ins["opt"])
+        variant = ins["variant"]
         x = r.random()
         if x < 0.12 and mode == "strict":
             # bare typed constants at top level (the key has a type(expr) component)
@@ -536,7 +554,7 @@ def generate(seed, tier):
     if wide_name is not None:
         ins = r.choice([i for i in insts if not i["family"].startswith(("entry", "csemix_diff"))]
                        or insts)
-        a, kw = _gen_extras(r, ins["family"], variant_for(ins["family"], ins["opt"]))
+        a, kw = _gen_extras(r, ins["family"], ins["variant"])
         ops.insert(r.randint(len(ops) // 2, len(ops)), ["call", ins, ["r", wide_name], a, kw, None])
     ops += later
     return {"config": {"mode": mode, "fault_mode": fault_mode, "profile": profile},
@@ -661,11 +679,13 @@ def execute(scenario, open_sigs):
             return True
         return False
 
-    def define(fam, bits):
-        key = (fam, bits)
+    def define(fam, bits, variant=None):
+        v = variant or variant_for(fam, bits)
+        if v not in STRICTER[variant_for(fam, bits)]:
+            v = variant_for(fam, bits)       # a shrunk option set may need another variant
+        key = (fam, bits, v)
         if key in optclasses:
             return optclasses[key]
-        v = variant_for(fam, bits)
         if fam == "plainopt":
             base = getattr(M, f"PO_ident_{v}")
         else:
@@ -751,7 +771,7 @@ def execute(scenario, open_sigs):
             return "cached", "plain"
         if fam == "plainopt":
             plain = M.P_ident
-            memo = define(fam, bits) if bits else M.PO_ident_0
+            memo = define(fam, bits, ins.get("variant")) if bits else M.PO_ident_0
             return memo, plain
         if fam == "count":
             plain = M.P_walkset
@@ -759,7 +779,7 @@ def execute(scenario, open_sigs):
             plain = getattr(M, f"P_{fam}")
         if bits is None:
             return getattr(M, f"C_{fam}_0"), plain
-        return define(fam, bits), plain
+        return define(fam, bits, ins.get("variant")), plain
 
     def get_inst(ins):
         n = ins["inst"]
@@ -832,7 +852,7 @@ def execute(scenario, open_sigs):
             if kind == "define":
                 if obs.active:
                     sys.setprofile(None)
-                define(op[1], op[2])
+                define(op[1], op[2], op[3] if len(op) > 3 else None)
                 if obs.active:
                     sys.setprofile(obs._prof)
                 continue
